@@ -152,6 +152,8 @@ Inductive obs :=
 | BId (table : string) (id : Z)
 | BCount (name : string) (v : Z)
 | BUid (g : gslot) (ctx idx : Z)
+| BUidIdx (g : gslot) (idx : Z)  (* observation side only: a unique id whose text carries no context
+                                   (alpha codes of the small-id default template `index`) *)
 | BVal (v : Z)                  (* result of a date / datetime parse (opaque code) *)
 | BLazy
 | BVersion (v : Z).
@@ -326,12 +328,14 @@ Definition obs_eqb (a b : obs) : bool :=
   | BId t i, BId t' i' => String.eqb t t' && (i =? i')
   | BCount n v, BCount n' v' => String.eqb n n' && (v =? v')
   | BUid g c i, BUid g' c' i' => gslot_eqb g g' && (c =? c') && (i =? i')
+  | BUidIdx g i, BUid g' _ i' => gslot_eqb g g' && (i =? i')     (* observed, model *)
   | BVal v, BVal v' => v =? v'
   | BLazy, BLazy => true
   | BVersion v, BVersion v' => v =? v'
   | _, _ => false
   end.
 
+(* first argument: observed, second: model *)
 (* [a] is a prefix of [b] *)
 Fixpoint prefix_eqb (a b : list obs) : bool :=
   match a, b with
